@@ -236,7 +236,7 @@ def confirms(v, obs):
     if k == "unwind":
         return obs == "HANG" or obs == "CRASH"
     if k in ("frame", "memory", "race", "ownership"):
-        return any(i.startswith("FAIL:") for i in items)
+        return any(i.startswith("FAIL:") for i in items) or (k == "ownership" and obs in ("CRASH", "HANG"))
     return False
 
 
